@@ -48,6 +48,22 @@ Proof. exact upload_independent. Qed.
 Theorem C02_upload_done_independent : forall chunks, upload_done_chunks chunks = upload_done_bytes (concat chunks).
 Proof. exact upload_done_independent. Qed.
 
+(* ... and a FOLDER upload: the item headers (2 + 2 + 2 + path bytes, io.ReadFull each), the size word and the
+   flattened file of every file item are parsed into the same items with the same data under every segmentation,
+   for every announced item count - also when a read returns the tail of one file together with the next item's
+   header *)
+Theorem C02_folder_upload_independent :
+  forall n chunks, folder_upload_chunks n chunks = folder_upload_bytes n (concat chunks).
+Proof. exact folder_upload_independent. Qed.
+Example C02_folder_upload_nonvacuous :   (* preamble, a folder "d" and a file "f" with data [7; 8], split in odd places *)
+  let pre := repeat 0 16 in
+  let dirh := [0;8; 0;1; 0;1; 0;0;1;100] ++ [] in
+  let fh := [0;8; 0;0; 0;1; 0;0;1;102] ++ [0;0;0;0] ++
+            repeat 0 22 ++ [0;2] ++ repeat 0 12 ++ [0;0;0;1] ++ [9] ++ repeat 0 12 ++ [0;0;0;2] ++ [7;8] in
+  let s := pre ++ dirh ++ fh in
+  folder_upload_bytes 2 s = Some [mk_fitem [0;0;1;100] true []; mk_fitem [0;0;1;102] false [7;8]] /\
+  folder_upload_chunks 2 [firstn 21 s; firstn 30 (skipn 21 s); skipn 51 s] = folder_upload_bytes 2 s.
+Proof. vm_compute. split; reflexivity. Qed.
 
 Theorem C02_payload_written_is_prefix :
   forall chunks n, let '(w, rest, ok) := copy_n n chunks in
@@ -75,3 +91,4 @@ Print Assumptions C02_control_session_independent.
 Print Assumptions C02_upload_independent.
 Print Assumptions C02_payload_written_is_prefix.
 Print Assumptions C02_upload_done_independent.
+Print Assumptions C02_folder_upload_independent.
